@@ -568,7 +568,7 @@ func (g *Gen) prelude() []*TopItem {
 	var items []*TopItem
 	trace := &FuncDecl{Name: "trace", Params: []Param{{"s", TString, true}, {"v", tv("a"), false}}, Ret: tv("a"), TParams: []string{"a"},
 		Body: Blk(Var("v", tv("a")), ExprStmt(Call("frt.Println", TUnit, Var("s", TString))))}
-	items = append(items, &TopItem{Func: trace, Label: "prelude"})
+	items = append(items, &TopItem{Func: trace, Label: "prelude:trace"})
 	if g.P.Generics {
 		idd := &FuncDecl{Name: "idd", Params: []Param{{"x", tv("a"), false}}, Ret: tv("a"), TParams: []string{"a"}, Body: Blk(Var("x", tv("a")))}
 		konst := &FuncDecl{Name: "konst", Params: []Param{{"a", tv("a"), false}, {"b", tv("b"), false}}, Ret: tv("a"), TParams: []string{"a", "b"}, Body: Blk(Var("a", tv("a")))}
@@ -577,7 +577,7 @@ func (g *Gen) prelude() []*TopItem {
 		pair := &FuncDecl{Name: "pair", Params: []Param{{"a", tv("a"), false}, {"b", tv("b"), false}}, Ret: TTuple(tv("a"), tv("b")), TParams: []string{"a", "b"},
 			Body: Blk(&Expr{K: "tuple", T: TTuple(tv("a"), tv("b")), Args: []*Expr{Var("a", tv("a")), Var("b", tv("b"))}})}
 		for _, f := range []*FuncDecl{idd, konst, applyTo, pair} {
-			items = append(items, &TopItem{Func: f, Label: "prelude"})
+			items = append(items, &TopItem{Func: f, Label: "prelude:" + f.Name})
 		}
 	}
 	return items
@@ -614,5 +614,22 @@ func (g *Gen) GenProgram() *Program {
 	}
 	main := &FuncDecl{Name: "main", Ret: TUnit, Body: &Block{Stmts: mainStmts[:len(mainStmts)-1], Final: mainStmts[len(mainStmts)-1].E}}
 	pr.Items = append(pr.Items, &TopItem{Func: main, Label: "main"})
+	return pr
+}
+
+// SetNameOffset makes the generator's fresh names start after n, so that two
+// generators produce disjoint names.
+func (g *Gen) SetNameOffset(n int) { g.nameCtr = n }
+
+// GenProgramNoMain generates type declarations and 1..3 functions, without
+// prelude and main (the profile should have Probes and Generics off): items
+// that can be inserted into another program without referring to it.
+func (g *Gen) GenProgramNoMain() *Program {
+	pr := &Program{}
+	pr.Items = append(pr.Items, g.genTypeDecls()...)
+	n := 1 + g.intn(3, "nextra")
+	for i := 0; i < n; i++ {
+		pr.Items = append(pr.Items, g.genFunc(g.P.MaxDepth-1))
+	}
 	return pr
 }
